@@ -154,10 +154,10 @@ pub fn check_query(qc: &QueryCase, si: &SearchInstance, rep: &mut Report) {
             continue;
         }
         if let Err(a) = check_accumulation(world, &res.routes[ri], false, od) {
-            let sig = if fam == "yens" && ri > 0 {
-                "C13|yens|alternative-route-state-not-accumulated".to_string()
-            } else if reopened {
+            let sig = if reopened {
                 "C13|run_a_star|stale-state-after-reopened-vertex".to_string()
+            } else if fam == "yens" && ri > 0 {
+                "C13|yens|alternative-route-state-not-accumulated".to_string()
             } else {
                 format!("C13|{fam}|route-state-wrong|{}", a.clause)
             };
